@@ -53,3 +53,28 @@ Proof.
   exists n. repeat split; try lia; [|exact Hin].
   symmetry. apply H1. intros Hn. rewrite Hn in Hin. exact Hin.
 Qed.
+
+(* merged commands: all keys dispatched to their own partitions, or the command is rejected *)
+Theorem ns_route_all_some s pks l :
+  ns_route_all s pks = Some l ->
+  length l = length pks /\ forall i pk, nth_error pks i = Some pk ->
+                                        exists p, nth_error l i = Some p /\ ns_route s pk = Served p.
+Proof.
+  revert l; induction pks as [|pk r IH]; simpl; intros l H.
+  - inversion H; subst. split; [reflexivity|]. intros [|i] pk' Hn; discriminate.
+  - destruct (ns_route s pk) as [p|] eqn:E; [|discriminate].
+    destruct (ns_route_all s r) as [l'|] eqn:E2; [|discriminate].
+    inversion H; subst. destruct (IH l' eq_refl) as [Hlen Hnth]. split; [simpl; now rewrite Hlen|].
+    intros [|i] pk' Hn; simpl in *.
+    + inversion Hn; subst. eauto.
+    + now apply Hnth.
+Qed.
+
+Theorem ns_route_all_rejects s pks pk :
+  In pk pks -> ns_route s pk = Rejected -> ns_route_all s pks = None.
+Proof.
+  induction pks as [|x r IH]; simpl; intros Hin Hr; [contradiction|].
+  destruct Hin as [->|Hin].
+  - now rewrite Hr.
+  - rewrite (IH Hin Hr). now destruct (ns_route s x).
+Qed.
